@@ -7,6 +7,7 @@ CONSTANTS Pipes = {1, 2}
           STimes = {40}
           SendCap = 8
           RecvCap = 128
+          Focus = "all"
           FlushOnNew = TRUE
 INVARIANTS OnlyCurrentBeforeDeadline RecvBounded NoLostWakeup PollR WireSound
 VIEW View
